@@ -61,7 +61,7 @@ def run(tier, seed, replay=None):
                 "go/types based write-set analysis of package vm (harness/c14.go vmAstWrites): syntactic freshness rule, usual aliasing caveats",
                 "Go race detector; reflection-based full tree dump (every field, positions, literal values, CallExpr.Func validity)"],
             "evaluations": len(results), "distinct_nontrivial": meta["distinct_nontrivial"],
-            "rule": "goroutine-free programs (12 directed incl. import, ++, closures, defer, variadic calls, cached small integers; "
+            "rule": "goroutine-free programs (22 directed incl. writes through pointers to computed small integers / booleans / strings, import, ++, closures, defer, variadic calls, cached small integers; "
                     "semantic and full-grammar generators): parsed once, dumped, run 4 times in sequence and from 6 goroutines at "
                     "once on fresh environments under the race detector; every run must equal the solo run (value, error class, "
                     "probe trace, bindings), the dump must never change, re-parsing must give the same dump; plus directed "
